@@ -73,6 +73,8 @@ type Exec struct {
 	effBusy      map[*ssa.Function]bool
 	curPos       token.Pos
 	prevTop      string
+	loopStatic   map[*loopInfo]map[string]bool
+	interiorArgs bool
 	allocBase    string // when set: the allocation top that allocated() compares against (call sites)
 	guards       []string
 	nret         int
@@ -90,7 +92,7 @@ func newExec(P *Program, bv bool) *Exec {
 		oblCount: map[string]int{}, logicals: map[string]*Val{}, tags: map[string]int{}, globalRefs: map[*ssa.Global]int{},
 		usedContract: map[string]bool{}, usedModels: map[string]bool{}, inlined: map[string]bool{},
 		genTop: map[int]string{}, genMerges: map[int]genMerge{}, keyInfo: map[string]compInfo{}, effCache: map[*ssa.Function]*WriteSet{}, effBusy: map[*ssa.Function]bool{},
-		natDone: map[string]bool{}, natTerms: map[int][][2]string{}, rootFresh: map[string]bool{}, loopFresh: map[*loopInfo]map[string]bool{}}
+		natDone: map[string]bool{}, natTerms: map[int][][2]string{}, loopStatic: map[*loopInfo]map[string]bool{}, rootFresh: map[string]bool{}, loopFresh: map[*loopInfo]map[string]bool{}}
 	return x
 }
 
@@ -465,7 +467,10 @@ func (x *Exec) enterLoop(f *frame, li *loopInfo, st *State) {
 	// 2. havoc everything the loop may change
 	ws := x.loopWrites(f.fn, li)
 	if ws.all {
-		panic(unsupported("loop %d in %s calls code with unbounded effects", li.ord, f.fn))
+		panic(unsupported("loop %d in %s calls code with unbounded effects (%s)", li.ord, f.fn, ws.why))
+	}
+	if f.fn == x.root {
+		x.loopStatic[li] = ws.keys
 	}
 	x.prevTop = st.allocTop
 	top := x.sc.declare("top", "Int")
